@@ -33,7 +33,12 @@ ACCOUNT = {"0": "0", "5": "5", "2^31-2": str(2 ** 31 - 2), "2^31-1": str(2 ** 31
 BOUND = {"-1": "-1", "0": "0", "1": "1", "3": "3", "2^31-1": str(2 ** 31 - 1), "2^31": str(2 ** 31), "2^31+1": str(2 ** 31 + 1),
          "2^32-2": str(2 ** 32 - 2), "2^32-1": str(2 ** 32 - 1), "x": "x"}
 FILE = {"absent": "out.json", "existing": "exist.json", "dir": "adir", "symlink-to-file": "lnk", "dangling-symlink": "dang",
-        "parent-missing": os.path.join("nodir", "out.json"), "empty-string": ""}
+        "parent-missing": os.path.join("nodir", "out.json"), "empty-string": "",
+        "symlink-rel-in-subdir": os.path.join("sub", "rel_lnk"), "symlink-up": os.path.join("sub", "up_lnk"),
+        "symlink-abs-to-file": "abs_lnk", "symlink-to-dir": "dir_lnk", "existing-dotdot": os.path.join("sub", "..", "exist.json"),
+        "absent-in-subdir": os.path.join("sub", "new.json")}
+PRECIOUS = ("exist.json", "keep.json", "lnk", "adir", "rel_lnk", "up_lnk", "abs_lnk", "dir_lnk")
+PW = {"none": None, "ascii": "pw", "nfkd-sensitive": "p\u00e4ss\ufb01\uff11\u2126", "blank-padded": "  two  blanks ", "empty": ""}
 
 
 def cmd_args(cmd, arg, password=None):
@@ -63,12 +68,14 @@ def cmd_args(cmd, arg, password=None):
         n = {"32-hex": 32, "40-hex": 40, "48-hex": 48, "56-hex": 56, "64-hex": 64, "31-hex": 31, "33-hex": 33, "65-hex": 65}.get(arg)
         v = ("0f" * 40)[:n] if n else ("g" * 32 if arg == "32-nonhex" else ("00 " * 11)[:32])
         a = ["from-entropy-hex", v]
-    if password:
+    if password is not None:
         a += ["--password", password]
     return a
 
 
 def argv_of(vec, password=None):
+    if password is None:
+        password = PW[vec.get("pw", "none")]
     a = []
     if vec["file"] != "none":
         # both spellings of the option
@@ -85,7 +92,10 @@ def argv_of(vec, password=None):
         a += ["--account", ACCOUNT[vec["account"]]]
     if not (vec["start"] == "0" and vec["end"] == "3" and vec.get("default_interval")):
         a += ["--interval", BOUND[vec["start"]], BOUND[vec["end"]]]
-    return a + cmd_args(vec["cmd"], vec["arg"], password)
+    tail = cmd_args(vec["cmd"], vec["arg"], password)
+    if password is not None and "--password" not in tail:
+        tail = tail + ["--password", password]            # sub-commands without that option: given all the same
+    return a + tail
 
 
 def make_dir():
@@ -95,6 +105,13 @@ def make_dir():
     os.mkdir(os.path.join(d, "adir"))
     os.symlink("exist.json", os.path.join(d, "lnk"))
     os.symlink("nowhere.json", os.path.join(d, "dang"))
+    os.mkdir(os.path.join(d, "sub"))
+    with open(os.path.join(d, "sub", "keep.json"), "w") as f:
+        f.write("PRECIOUS TOO\n")
+    os.symlink("keep.json", os.path.join(d, "sub", "rel_lnk"))          # relative to the link's own directory
+    os.symlink(os.path.join("..", "exist.json"), os.path.join(d, "sub", "up_lnk"))
+    os.symlink(os.path.join(d, "exist.json"), os.path.join(d, "abs_lnk"))
+    os.symlink("adir", os.path.join(d, "dir_lnk"))
     return d
 
 
@@ -172,10 +189,12 @@ def spec_filter(data):
             for k, v in data.items() if k in ("BIP44", "BIP49", "BIP84")}
 
 
-def api_result(vec, emitted, password=""):
+def api_result(vec, emitted, password=None):
     """what the library API returns for the same source secret, network, account and interval"""
     from btc_hd_wallet import PaperWallet
     test = vec["testnet"]
+    if password is None:
+        password = PW[vec.get("pw", "none")] or ""
     c, a = vec["cmd"], cmd_args(vec["cmd"], vec["arg"])
     if c == "new":
         m = (emitted or {}).get("MASTER", {}).get("mnemonic")
@@ -225,7 +244,7 @@ def observe(vec, mode, password=None):
                 for row in cdata.get(k, {}).get("groups", []):
                     rowpaths.append([ord(c) for c in str(row[0])])
             try:
-                exp = api_result(vec, cdata if vec["cmd"] == "new" else None, password or "")
+                exp = api_result(vec, cdata if vec["cmd"] == "new" else None, password)
                 if exp is None:
                     equals = vec["cmd"] == "new" and vec["paranoia"]
                 else:
@@ -239,7 +258,7 @@ def observe(vec, mode, password=None):
         obs = {"exit": 0 if code == 0 else 1, "raw_exit": code if isinstance(code, int) else 1, "stdout": cls, "content": content,
                "created": bool(created), "overwrote": bool(changed or removed), "fs_changed": bool(created or changed or removed),
                "net": net, "rowpaths": rowpaths, "equals_api": bool(equals),
-               "opened_existing": [o for o in opened if os.path.basename(o) in ("exist.json", "lnk", "adir")]}
+               "opened_existing": [o for o in opened if os.path.basename(o) in PRECIOUS]}
         if obs["opened_existing"]:
             obs["overwrote"] = True
         return obs, {"args": args, "stderr_tail": err[-300:], "emitted": cdata}
